@@ -23,8 +23,8 @@ from sim import core, seams, ser, synth
 ID = 'C09'
 LEVEL = 'exploration'
 ASSUMPTIONS = [
-    'context snapshots read Context._data / _functions / _exclusive_funcs of '
-    'the plain contexts of the host chain (observation only)',
+    'context snapshots use the public context interface only (keys, own-layer '
+    'reads, get_functions for every name registered anywhere in the chain)',
     'aliasing is checked for converted results (yaql.convertOutputData on): '
     'with output conversion off yaql hands back unfinalised values by design',
     'single-use host iterators are only used as injected fault streams and '
@@ -324,6 +324,19 @@ def bare_root():
     return r
 
 
+class LazySnap(dict):
+    """pristine snapshot per host chain, taken when the chain is first
+    needed (always before the first evaluation that uses it)"""
+
+    def __init__(self, host):
+        super().__init__()
+        self.host = host
+
+    def __missing__(self, fl):
+        self[fl] = self.host.snapshot(fl)
+        return self[fl]
+
+
 class Host:
     """The simulated host: contexts, functions, documents, statements."""
 
@@ -380,7 +393,8 @@ class Host:
         container_ids(self.hostlist, self.host_ids)
         self.hostlist_pristine = ser.ser_value(self.hostlist)
         self.stmt_cache = {}
-        self.snap = {fl: self.snapshot(fl) for fl in self.layers}
+        self._names = {}
+        self.snap = LazySnap(self)
         self.dollar_ok = {fl: set() for fl in self.layers}
 
     @staticmethod
@@ -397,17 +411,17 @@ class Host:
         return out
 
     def snapshot(self, fl):
+        """Public-interface snapshot of every context of the host chain."""
+        names = self._names.get(fl)
+        if names is None:
+            names = self._names[fl] = synth.known_function_names(
+                self.layers[fl]['C']) + ['#finalize_fallback', 'hv', 'cv']
         snap = []
         for c in self.chain(fl):
-            data = getattr(c, '_data', None)
-            if data is None:
-                data = {k: c[k] for k in c.keys()}
-            funcs = getattr(c, '_functions', {})
-            snap.append({
-                'data': {k: (id(v), core.jdump(ser.ser_value(v)))
-                         for k, v in data.items()},
-                'funcs': {k: frozenset(map(id, v)) for k, v in funcs.items()},
-                'excl': frozenset(getattr(c, '_exclusive_funcs', ()))})
+            data, funcs = synth.public_snapshot(
+                c, names, lambda v: core.jdump(ser.ser_value(v)))
+            snap.append({'data': data, 'funcs': funcs,
+                         'excl': frozenset(n for n, f in funcs.items() if f[1])})
         return snap
 
     def compare_contexts(self, fl):
@@ -572,6 +586,7 @@ def execute(case, stats):
                 continue
             hfl = op.get('host') or fl
             L = host.layers[hfl]
+            host.snap[hfl]          # pristine snapshot of this chain
             tgt = op['target']
             if tgt == 'child':
                 ctx = L['P'].create_child_context()
@@ -671,7 +686,7 @@ def execute(case, stats):
                                  ser.ser_value(host.hostlist)}))
             # I2: context chain unchanged
             if not viols:
-                for f2 in host.layers:
+                for f2 in (hfl,):       # the chain this evaluation ran in
                     diff = host.compare_contexts(f2)
                     if diff:
                         viols.append(v_('host-context-changed', step, descr,
